@@ -335,6 +335,45 @@ impl<'a> Peripheral<'a> {
     }
 }
 
+/// Projection of the internal state for conformance checking against the TLA+ model
+/// (verification hook, only compiled with `--cfg profirust_verif`; does not change behaviour).
+#[cfg(profirust_verif)]
+#[derive(Debug, Clone, PartialEq, Eq)]
+pub struct PeripheralVerifView {
+    pub address: u8,
+    pub state: &'static str,
+    pub retry_count: u8,
+    pub fcb: &'static str,
+    pub diag_needed: bool,
+    pub diag_in_flight: bool,
+}
+
+#[cfg(profirust_verif)]
+impl Peripheral<'_> {
+    pub fn verif_view(&self) -> PeripheralVerifView {
+        PeripheralVerifView {
+            address: self.address,
+            state: match self.state {
+                PeripheralState::Offline => "Offline",
+                PeripheralState::WaitForParam => "WaitForParam",
+                PeripheralState::WaitForConfig => "WaitForConfig",
+                PeripheralState::ValidateConfig => "ValidateConfig",
+                PeripheralState::PreDataExchange => "PreDataExchange",
+                PeripheralState::DataExchange => "DataExchange",
+            },
+            retry_count: self.retry_count,
+            fcb: match self.fcb {
+                crate::fdl::FrameCountBit::First => "First",
+                crate::fdl::FrameCountBit::High => "High",
+                crate::fdl::FrameCountBit::Low => "Low",
+                crate::fdl::FrameCountBit::Inactive => "Inactive",
+            },
+            diag_needed: self.diag_needed,
+            diag_in_flight: self.diag_in_flight,
+        }
+    }
+}
+
 impl<'a> Peripheral<'a> {
     pub(crate) fn transmit_telegram<'b>(
         &mut self,
